@@ -255,3 +255,33 @@ def per_field_shift_rule(chk, repo, clause):
                                   f'and sub-pixel shifted with the tilt of that one field'
     chk.ob(clause, 'D-flow', 'propagate.propagate_dft', 'every field is shifted by its own tilts', ok,
            det if ok is not True else f'{n} shift(s) taken from the field of the iteration', f.loc())
+    # the samples of a field sit at its offset in the input plane: every transform of `X.data` is told `offset=X.offset`
+    # (a centred aperture has offset 0, which is why a call without it looks right)
+    n_off, bad_off = 0, []
+    for p in paths:
+        evs = list(p.events) + [e for lp in p.state.loops for b in lp['states'] for e in b.events[lp['n_pre_events']:]]
+        seen_ev = set()
+        for e in evs:
+            if id(e) in seen_ev or not (e.kind == 'call' and e.data.get('callee') == 'fourier.dft2'):
+                continue
+            seen_ev.add(id(e))
+            b = e.data.get('bound') or {}
+            fa = b.get('f').single_atom() if isinstance(b.get('f'), Poly) else None
+            if fa is None or fa[0] != 'attr' or fa[2] != 'data':
+                continue
+            n_off += 1
+            if b.get('offset') != nf.attr(Poly.atom(fa[1]), 'offset'):
+                bad_off.append(f'dft2(f={fmt(b.get("f"))[:40]}, offset={fmt(b.get("offset"))[:40]}) at {e.loc()}')
+    chk.ob(clause, 'D-flow', 'propagate.propagate_dft', 'every transform is told the offset of the field it transforms',
+           (not bad_off) if n_off else None, '; '.join(sorted(set(bad_off))[:2]) or f'{n_off} transform call(s)', f.loc())
+    # ... and it is the wavefront's own fields that are transformed: fields merged beforehand (reduce / merge sum the data and
+    # build a Field without tilt) have lost the tilt each of them carried
+    merged = []
+    for p in paths:
+        for e in p.events:
+            if e.kind == 'call' and e.depth == 0 and str(e.data.get('callee')) in ('field.reduce', 'field.merge', 'field._merge',
+                                                                                    'field._reduce'):
+                merged.append(f'{e.data.get("callee")} at {e.loc()}')
+    chk.ob(clause, 'D-flow', 'propagate.propagate_dft', 'the fields are transformed one by one, as the wavefront holds them',
+           not merged, ('; '.join(sorted(set(merged))[:2]) + ': a merged field carries no tilt, so the displacement of every field '
+                        'that overlapped another one is dropped') if merged else 'no merge of the input fields', f.loc())
